@@ -130,35 +130,59 @@ theorem nestedRC_rng (r : VRange) :
   cases mn <;> cases mx <;> simp [nestedRC, nestedLo, nestedHi]
 
 /-- a python item as `create_nested_marker` prints it: `python_version` / `python_full_version`, an ordered
-comparison, a printed release (at least three components for `python_full_version`) -/
-def PyItem3 (n op v : String) : Prop :=
-  ∃ lit : List Nat, PyName n ∧ CmpOp op ∧ lit ≠ [] ∧ (n = "python_full_version" → 3 ≤ lit.length) ∧ v = relText lit
+comparison, a printed release (at least three components for `python_full_version`); `Q` is an additional
+property of (variable, release) that the producers of such items may establish -/
+def PyItemQ (Q : String → List Nat → Prop) (n op v : String) : Prop :=
+  ∃ lit : List Nat, PyName n ∧ CmpOp op ∧ lit ≠ [] ∧ (n = "python_full_version" → 3 ≤ lit.length) ∧ Q n lit ∧
+    v = relText lit
+
+/-- no additional property -/
+def QTrue : String → List Nat → Prop := fun _ _ => True
+
+abbrev PyItem3 (n op v : String) : Prop := PyItemQ QTrue n op v
 
 mutual
 /-- a syntax tree all of whose items are such python items, operands in the usual order -/
-def PyAtom : Atom → Prop
-  | .item n op v sw => sw = false ∧ PyItem3 n op v
-  | .paren m => PySyn m
-def PySyn : Syn → Prop
-  | .one a => PyAtom a
-  | .more a _ rest => PyAtom a ∧ PySyn rest
+def PyAtomQ (Q : String → List Nat → Prop) : Atom → Prop
+  | .item n op v sw => sw = false ∧ PyItemQ Q n op v
+  | .paren m => PySynQ Q m
+def PySynQ (Q : String → List Nat → Prop) : Syn → Prop
+  | .one a => PyAtomQ Q a
+  | .more a _ rest => PyAtomQ Q a ∧ PySynQ Q rest
 end
 
+abbrev PyAtom : Atom → Prop := PyAtomQ QTrue
+abbrev PySyn : Syn → Prop := PySynQ QTrue
+
 /-- the text `s` is one python item whose reference value on `E` is `b` -/
-def LeafMeans (E : Env) (s : String) (b : Bool) : Prop :=
-  ∃ n op v, PyItem3 n op v ∧ s.toList = leafChars n op v.toList ∧ evalItem n op v false E = some b
+def LeafMeansQ (Q : String → List Nat → Prop) (E : Env) (s : String) (b : Bool) : Prop :=
+  ∃ n op v, PyItemQ Q n op v ∧ s.toList = leafChars n op v.toList ∧ evalItem n op v false E = some b
+
+abbrev LeafMeans (E : Env) (s : String) (b : Bool) : Prop := LeafMeansQ QTrue E s b
+
+/-- what a producer of items needs of a bound `m`: `Q` holds of the items printed for it -/
+def BoundQ (Q : String → List Nat → Prop) (m : Version) : Prop :=
+  (∀ a, m.release = [a] → Q "python_version" [a] ∧ Q "python_full_version" [a, 0, 0]) ∧
+  (∀ a b, m.release = [a, b] → Q "python_version" [a, b] ∧ Q "python_full_version" [a, b, 0]) ∧
+  (∀ a b c, m.release = [a, b, c] → Q "python_full_version" [a, b, c])
+
+theorem boundQ_true (m : Version) : BoundQ QTrue m :=
+  ⟨fun _ _ => ⟨trivial, trivial⟩, fun _ _ _ => ⟨trivial, trivial⟩, fun _ _ _ _ => trivial⟩
+
+variable {Q : String → List Nat → Prop}
 
 theorem leafMeans_mk (E : Env) (n op : String) (lit cand : List Nat) (hn : PyName n) (hop : CmpOp op)
     (hlit : lit ≠ []) (hcand : cand ≠ []) (hE : E.get? n = some (relText cand))
+    (hq : Q n lit)
     (hfull : n = "python_full_version" → 3 ≤ lit.length := by simp) :
-    LeafMeans E (n ++ " " ++ op ++ " \"" ++ relText lit ++ "\"")
+    LeafMeansQ Q E (n ++ " " ++ op ++ " \"" ++ relText lit ++ "\"")
       (opTest op (compare (stripZeros cand) (stripZeros lit))) := by
-  refine ⟨n, op, relText lit, ⟨lit, hn, hop, hlit, hfull, rfl⟩, ?_, ?_⟩
+  refine ⟨n, op, relText lit, ⟨lit, hn, hop, hlit, hfull, hq, rfl⟩, ?_, ?_⟩
   · simp [leafChars, String.toList_append]
   · exact evalItem_py E n op lit cand hn hop hlit hcand hE
 
-theorem PyItem3.plain {n op v : String} (h : PyItem3 n op v) : PyName n ∧ CmpOp op ∧ Plain v.toList := by
-  obtain ⟨lit, hn, hop, _, _, rfl⟩ := h
+theorem PyItemQ.plain {n op v : String} (h : PyItemQ Q n op v) : PyName n ∧ CmpOp op ∧ Plain v.toList := by
+  obtain ⟨lit, hn, hop, _, _, _, rfl⟩ := h
   exact ⟨hn, hop, by rw [relText_toList]; exact plain_relChars lit⟩
 
 theorem relText_pad2 (a b : Nat) : relText [a, b] ++ padZeros 1 = relText [a, b, 0] := by
@@ -198,41 +222,41 @@ theorem ne_gt_iff (c : Ordering) : c ≠ .gt ↔ ¬ c = .gt := Iff.rfl
 
 /-- **lower clause**: printed as one python item whose reference value is membership above the lower bound -/
 theorem nestedLo_means (E : Env) (r : VRange) {m : Version} (hm : r.min = some m) (hb : PyBound m = true)
-    (X Y Z : Nat) (hE : EnvPy E X Y Z) :
-    ∃ s b, nestedLo r = [s] ∧ LeafMeans E s b ∧ (b = true ↔ r.denLo (pyV X Y Z)) := by
+    (hQ : BoundQ Q m) (X Y Z : Nat) (hE : EnvPy E X Y Z) :
+    ∃ s b, nestedLo r = [s] ∧ LeafMeansQ Q E s b ∧ (b = true ↔ r.denLo (pyV X Y Z)) := by
   obtain ⟨_, _, _, _, _, ht, hr⟩ := PyBound_parts hb
   have hden := denLo_py r hm hb X Y Z
   rcases hr with ⟨a, e⟩ | ⟨a, b, e⟩ | ⟨a, b, c, e⟩
   · -- precision 1
     cases hi : r.imin
     · refine ⟨_, _, ?_, leafMeans_mk E "python_full_version" ">" [a, 0, 0] [X, Y, Z] (Or.inr rfl)
-        (Or.inr (Or.inl rfl)) (by simp) (by simp) hE.2, ?_⟩
+        (Or.inr (Or.inl rfl)) (by simp) (by simp) hE.2 (hQ.1 a e).2, ?_⟩
       · simp [nestedLo, hm, Version.precision, e, hi, ht, ← relText_pad1, String.append_assoc]
       · rw [hden, opTest_gt, sz3, lex3_gt]; simp only [hi, e, pad3, lex3_lt, Bool.false_eq_true, if_false]; omega
     · refine ⟨_, _, ?_, leafMeans_mk E "python_version" ">=" [a] [X, Y] (Or.inl rfl)
-        (Or.inl rfl) (by simp) (by simp) hE.1, ?_⟩
+        (Or.inl rfl) (by simp) (by simp) hE.1 (hQ.1 a e).1, ?_⟩
       · simp [nestedLo, hm, Version.precision, e, hi, ht]
       · rw [hden, opTest_ge, sz_pad1, sz_pad2, sz3]
         simp only [hi, e, pad3, if_true, ne_eq, lex3_lt, lex3_gt]; omega
   · -- precision 2
     cases hi : r.imin
     · refine ⟨_, _, ?_, leafMeans_mk E "python_full_version" ">" [a, b, 0] [X, Y, Z] (Or.inr rfl)
-        (Or.inr (Or.inl rfl)) (by simp) (by simp) hE.2, ?_⟩
+        (Or.inr (Or.inl rfl)) (by simp) (by simp) hE.2 (hQ.2.1 a b e).2, ?_⟩
       · simp [nestedLo, hm, Version.precision, e, hi, ht, ← relText_pad2, String.append_assoc]
       · rw [hden, opTest_gt, sz3, lex3_gt]; simp only [hi, e, pad3, lex3_lt, Bool.false_eq_true, if_false]; omega
     · refine ⟨_, _, ?_, leafMeans_mk E "python_version" ">=" [a, b] [X, Y] (Or.inl rfl)
-        (Or.inl rfl) (by simp) (by simp) hE.1, ?_⟩
+        (Or.inl rfl) (by simp) (by simp) hE.1 (hQ.2.1 a b e).1, ?_⟩
       · simp [nestedLo, hm, Version.precision, e, hi, ht]
       · rw [hden, opTest_ge, sz_pad2, sz_pad2, sz3]
         simp only [hi, e, pad3, if_true, ne_eq, lex3_lt, lex3_gt]; omega
   · -- precision 3
     cases hi : r.imin
     · refine ⟨_, _, ?_, leafMeans_mk E "python_full_version" ">" [a, b, c] [X, Y, Z] (Or.inr rfl)
-        (Or.inr (Or.inl rfl)) (by simp) (by simp) hE.2, ?_⟩
+        (Or.inr (Or.inl rfl)) (by simp) (by simp) hE.2 (hQ.2.2 a b c e), ?_⟩
       · simp [nestedLo, hm, Version.precision, e, hi, ht]
       · rw [hden, opTest_gt, sz3, lex3_gt]; simp only [hi, e, pad3, lex3_lt, Bool.false_eq_true, if_false]; omega
     · refine ⟨_, _, ?_, leafMeans_mk E "python_full_version" ">=" [a, b, c] [X, Y, Z] (Or.inr rfl)
-        (Or.inl rfl) (by simp) (by simp) hE.2, ?_⟩
+        (Or.inl rfl) (by simp) (by simp) hE.2 (hQ.2.2 a b c e), ?_⟩
       · simp [nestedLo, hm, Version.precision, e, hi, ht]
       · rw [hden, opTest_ge, sz3]
         simp only [hi, e, pad3, if_true, ne_eq, lex3_lt, lex3_gt]; omega
@@ -240,44 +264,44 @@ theorem nestedLo_means (E : Env) (r : VRange) {m : Version} (hm : r.min = some m
 
 /-- **upper clause**: printed as one python item whose reference value is membership below the upper bound -/
 theorem nestedHi_means (E : Env) (r : VRange) {m : Version} (hm : r.max = some m) (hb : PyBound m = true)
-    (X Y Z : Nat) (hE : EnvPy E X Y Z) :
-    ∃ s b, nestedHi r = [s] ∧ LeafMeans E s b ∧ (b = true ↔ r.rawHi (pyV X Y Z)) := by
+    (hQ : BoundQ Q m) (X Y Z : Nat) (hE : EnvPy E X Y Z) :
+    ∃ s b, nestedHi r = [s] ∧ LeafMeansQ Q E s b ∧ (b = true ↔ r.rawHi (pyV X Y Z)) := by
   obtain ⟨_, _, _, _, _, ht, hr⟩ := PyBound_parts hb
   have hden := rawHi_py r hm hb X Y Z
   rcases hr with ⟨a, e⟩ | ⟨a, b, e⟩ | ⟨a, b, c, e⟩
   · -- precision 1
     cases hi : r.imax
     · refine ⟨_, _, ?_, leafMeans_mk E "python_version" "<" [a] [X, Y] (Or.inl rfl)
-        (Or.inr (Or.inr (Or.inr (Or.inl rfl)))) (by simp) (by simp) hE.1, ?_⟩
+        (Or.inr (Or.inr (Or.inr (Or.inl rfl)))) (by simp) (by simp) hE.1 (hQ.1 a e).1, ?_⟩
       · simp [nestedHi, hm, Version.precision, e, hi, ht]
       · rw [hden, opTest_lt, sz_pad1, sz_pad2, sz3]
         simp only [hi, e, pad3, lex3_lt, Bool.false_eq_true, if_false]; omega
     · refine ⟨_, _, ?_, leafMeans_mk E "python_full_version" "<=" [a, 0, 0] [X, Y, Z] (Or.inr rfl)
-        (Or.inr (Or.inr (Or.inl rfl))) (by simp) (by simp) hE.2, ?_⟩
+        (Or.inr (Or.inr (Or.inl rfl))) (by simp) (by simp) hE.2 (hQ.1 a e).2, ?_⟩
       · simp [nestedHi, hm, Version.precision, e, hi, ht, ← relText_pad1, String.append_assoc]
       · rw [hden, opTest_le, sz3]
         simp only [hi, e, pad3, if_true, ne_eq, lex3_lt, lex3_gt]
   · -- precision 2
     cases hi : r.imax
     · refine ⟨_, _, ?_, leafMeans_mk E "python_version" "<" [a, b] [X, Y] (Or.inl rfl)
-        (Or.inr (Or.inr (Or.inr (Or.inl rfl)))) (by simp) (by simp) hE.1, ?_⟩
+        (Or.inr (Or.inr (Or.inr (Or.inl rfl)))) (by simp) (by simp) hE.1 (hQ.2.1 a b e).1, ?_⟩
       · simp [nestedHi, hm, Version.precision, e, hi, ht]
       · rw [hden, opTest_lt, sz_pad2, sz_pad2, sz3]
         simp only [hi, e, pad3, lex3_lt, Bool.false_eq_true, if_false]; omega
     · refine ⟨_, _, ?_, leafMeans_mk E "python_full_version" "<=" [a, b, 0] [X, Y, Z] (Or.inr rfl)
-        (Or.inr (Or.inr (Or.inl rfl))) (by simp) (by simp) hE.2, ?_⟩
+        (Or.inr (Or.inr (Or.inl rfl))) (by simp) (by simp) hE.2 (hQ.2.1 a b e).2, ?_⟩
       · simp [nestedHi, hm, Version.precision, e, hi, ht, ← relText_pad2, String.append_assoc]
       · rw [hden, opTest_le, sz3]
         simp only [hi, e, pad3, if_true, ne_eq, lex3_lt, lex3_gt]
   · -- precision 3
     cases hi : r.imax
     · refine ⟨_, _, ?_, leafMeans_mk E "python_full_version" "<" [a, b, c] [X, Y, Z] (Or.inr rfl)
-        (Or.inr (Or.inr (Or.inr (Or.inl rfl)))) (by simp) (by simp) hE.2, ?_⟩
+        (Or.inr (Or.inr (Or.inr (Or.inl rfl)))) (by simp) (by simp) hE.2 (hQ.2.2 a b c e), ?_⟩
       · simp [nestedHi, hm, Version.precision, e, hi, ht]
       · rw [hden, opTest_lt, sz3]
         simp only [hi, e, pad3, lex3_lt, Bool.false_eq_true, if_false]
     · refine ⟨_, _, ?_, leafMeans_mk E "python_full_version" "<=" [a, b, c] [X, Y, Z] (Or.inr rfl)
-        (Or.inr (Or.inr (Or.inl rfl))) (by simp) (by simp) hE.2, ?_⟩
+        (Or.inr (Or.inr (Or.inl rfl))) (by simp) (by simp) hE.2 (hQ.2.2 a b c e), ?_⟩
       · simp [nestedHi, hm, Version.precision, e, hi, ht]
       · rw [hden, opTest_le, sz3]
         simp only [hi, e, pad3, if_true, ne_eq, lex3_lt, lex3_gt]
@@ -297,25 +321,25 @@ theorem parseText_of_conj (t : String) (syn : Syn) (h : ConjParse t.toList syn) 
   simp only [List.append_nil] at this
   simp only [hf, this, skipWs, List.isEmpty_nil, if_true]
 
-theorem leaf_conjParse {E : Env} {s : String} {b : Bool} (h : LeafMeans E s b) :
-    ∃ syn, ConjParse s.toList syn ∧ evalSyn E syn = some b ∧ PySyn syn := by
+theorem leaf_conjParse {E : Env} {s : String} {b : Bool} (h : LeafMeansQ Q E s b) :
+    ∃ syn, ConjParse s.toList syn ∧ evalSyn E syn = some b ∧ PySynQ Q syn := by
   obtain ⟨n, op, v, hi, hs, he⟩ := h
   obtain ⟨hn, hop, hv⟩ := hi.plain
-  refine ⟨.one (.item n op v false), ?_, ?_, by simp [PySyn, PyAtom, hi]⟩
+  refine ⟨.one (.item n op v false), ?_, ?_, by simp [PySynQ, PyAtomQ, hi]⟩
   · intro f rest hr
     rw [hs]
     have := (parseSyn_one (f + 1) n op v.toList rest hn hop (plain_qfree hv) hr).1
     rwa [String.ofList_toList] at this
   · simp [evalSyn, evalSynAcc, evalAtom, he, and?]
 
-theorem two_conjParse {E : Env} {s s' : String} {b b' : Bool} (h : LeafMeans E s b) (h' : LeafMeans E s' b') :
-    ∃ syn, ConjParse (s ++ " and " ++ s').toList syn ∧ evalSyn E syn = some (b && b') ∧ PySyn syn := by
+theorem two_conjParse {E : Env} {s s' : String} {b b' : Bool} (h : LeafMeansQ Q E s b) (h' : LeafMeansQ Q E s' b') :
+    ∃ syn, ConjParse (s ++ " and " ++ s').toList syn ∧ evalSyn E syn = some (b && b') ∧ PySynQ Q syn := by
   obtain ⟨n, op, v, hi, hs, he⟩ := h
   obtain ⟨n', op', v', hi', hs', he'⟩ := h'
   obtain ⟨hn, hop, hv⟩ := hi.plain
   obtain ⟨hn', hop', hv'⟩ := hi'.plain
   refine ⟨.more (.item n op v false) false (.one (.item n' op' v' false)), ?_, ?_,
-    by simp [PySyn, PyAtom, hi, hi']⟩
+    by simp [PySynQ, PyAtomQ, hi, hi']⟩
   · intro f rest hr
     simp only [String.toList_append, hs, hs', List.append_assoc]
     have := parseSyn_two f n op v.toList n' op' v'.toList rest hn hop (plain_qfree hv) hn' hop' (plain_qfree hv') hr
@@ -344,19 +368,20 @@ theorem allows_py_iff (r : VRange) (hr : PyRange r = true) (X Y Z : Nat) :
 
 /-- **`create_nested_marker` for one range is exact**: the printed text parses, and its reference value on
 the environment of interpreter `X.Y.Z` is membership of `X.Y.Z` in the range. -/
-theorem nestedRng_exact (E : Env) (r : VRange) (hr : PyRange r = true) (X Y Z : Nat) (hE : EnvPy E X Y Z) :
+theorem nestedRng_exact (E : Env) (r : VRange) (hr : PyRange r = true) (hQ : ∀ m ∈ r.bounds, BoundQ Q m)
+    (X Y Z : Nat) (hE : EnvPy E X Y Z) :
     ∃ syn, ConjParse (nestedRC "python_version" (.rng r)).toList syn ∧
       parseText (nestedRC "python_version" (.rng r)) = .ok syn ∧
-      evalSyn E syn = some (r.allows (pyV X Y Z)) ∧ PySyn syn := by
+      evalSyn E syn = some (r.allows (pyV X Y Z)) ∧ PySynQ Q syn := by
   have hall := allows_py_iff r hr X Y Z
   have hr' := hr
   simp only [PyRange, Bool.and_eq_true, Bool.not_eq_true', VRange.isAny, Bool.and_eq_false_iff,
     Option.isNone_eq_false_iff, Option.isSome_iff_exists] at hr'
   rw [nestedRC_rng]
   have key : ∀ (t : String) (syn : Syn) (b : Bool), ConjParse t.toList syn → t.toList ≠ [] →
-      evalSyn E syn = some b ∧ PySyn syn → (b = true ↔ r.allows (pyV X Y Z) = true) →
+      evalSyn E syn = some b ∧ PySynQ Q syn → (b = true ↔ r.allows (pyV X Y Z) = true) →
       ∃ syn, ConjParse t.toList syn ∧ parseText t = .ok syn ∧ evalSyn E syn = some (r.allows (pyV X Y Z)) ∧
-        PySyn syn := by
+        PySynQ Q syn := by
     intro t syn b hc hne he hb
     refine ⟨syn, hc, parseText_of_conj t syn hc hne, ?_, he.2⟩
     rw [he.1]; congr 1; exact Bool.eq_iff_iff.2 hb
@@ -365,7 +390,7 @@ theorem nestedRng_exact (E : Env) (r : VRange) (hr : PyRange r = true) (X Y Z : 
     cases hmax : r.max with
     | none => rcases hr'.2 with ⟨_, h⟩ | ⟨_, h⟩ <;> simp_all
     | some M =>
-      obtain ⟨s, b, hs, hm, hb⟩ := nestedHi_means E r hmax (by simpa [hmax] using hr'.1.2) X Y Z hE
+      obtain ⟨s, b, hs, hm, hb⟩ := nestedHi_means E r hmax (by simpa [hmax] using hr'.1.2) (hQ _ (by simp [VRange.bounds, hmax])) X Y Z hE
       obtain ⟨syn, hc, he⟩ := leaf_conjParse hm
       have hlo : nestedLo r = [] := by simp [nestedLo, hmin]
       rw [hlo, hs]
@@ -373,7 +398,7 @@ theorem nestedRng_exact (E : Env) (r : VRange) (hr : PyRange r = true) (X Y Z : 
       · obtain ⟨n, op, v, hi, hs', _⟩ := hm; rw [hs']; exact leafChars_ne_nil n op _ hi.plain.1
       · rw [hall, hb]; simp [VRange.denLo, hmin]
   | some m =>
-    obtain ⟨s, b, hs, hm, hb⟩ := nestedLo_means E r hmin (by simpa [hmin] using hr'.1.1) X Y Z hE
+    obtain ⟨s, b, hs, hm, hb⟩ := nestedLo_means E r hmin (by simpa [hmin] using hr'.1.1) (hQ _ (by simp [VRange.bounds, hmin])) X Y Z hE
     cases hmax : r.max with
     | none =>
       obtain ⟨syn, hc, he⟩ := leaf_conjParse hm
@@ -383,7 +408,7 @@ theorem nestedRng_exact (E : Env) (r : VRange) (hr : PyRange r = true) (X Y Z : 
       · obtain ⟨n, op, v, hi, hs', _⟩ := hm; rw [hs']; exact leafChars_ne_nil n op _ hi.plain.1
       · rw [hall, hb]; simp [VRange.rawHi, hmax]
     | some M =>
-      obtain ⟨s', b', hs', hm', hb'⟩ := nestedHi_means E r hmax (by simpa [hmax] using hr'.1.2) X Y Z hE
+      obtain ⟨s', b', hs', hm', hb'⟩ := nestedHi_means E r hmax (by simpa [hmax] using hr'.1.2) (hQ _ (by simp [VRange.bounds, hmax])) X Y Z hE
       obtain ⟨syn, hc, he⟩ := two_conjParse hm hm'
       rw [hs, hs']
       have e : joinWith " and " ([s] ++ [s']) = s ++ " and " ++ s' := by simp [joinWith]
@@ -399,16 +424,16 @@ theorem nestedRng_exact (E : Env) (r : VRange) (hr : PyRange r = true) (X Y Z : 
 /-! ### one version (precision 3) -/
 
 theorem nestedVer_exact (E : Env) (v : Version) (hb : PyBound v = true) (hp : v.precision = 3)
-    (X Y Z : Nat) (hE : EnvPy E X Y Z) :
+    (hQ : BoundQ Q v) (X Y Z : Nat) (hE : EnvPy E X Y Z) :
     ∃ syn, ConjParse (nestedRC "python_version" (.ver v)).toList syn ∧
       parseText (nestedRC "python_version" (.ver v)) = .ok syn ∧
-      evalSyn E syn = some (v.allows (pyV X Y Z)) ∧ PySyn syn := by
+      evalSyn E syn = some (v.allows (pyV X Y Z)) ∧ PySynQ Q syn := by
   obtain ⟨_, _, _, _, _, ht, hr⟩ := PyBound_parts hb
   obtain ⟨a, b, c, e⟩ : ∃ a b c, v.release = [a, b, c] := by
     rcases hr with ⟨a, e⟩ | ⟨a, b, e⟩ | ⟨a, b, c, e⟩ <;> simp [Version.precision, e] at hp
     exact ⟨a, b, c, e⟩
   have hm := leafMeans_mk E "python_full_version" "==" [a, b, c] [X, Y, Z] (Or.inr rfl)
-    (Or.inr (Or.inr (Or.inr (Or.inr rfl)))) (by simp) (by simp) hE.2
+    (Or.inr (Or.inr (Or.inr (Or.inr rfl)))) (by simp) (by simp) hE.2 (hQ.2.2 a b c e)
   have htxt : nestedRC "python_version" (.ver v) =
       "python_full_version" ++ " " ++ "==" ++ " \"" ++ relText [a, b, c] ++ "\"" := by
     simp [nestedRC, hp, ht, e]
@@ -461,15 +486,26 @@ def PyDom : RC → Bool
   | .ver v => PyBound v && v.precision == 3
   | .rng r => PyRange r
 
-theorem nestedRC_conj (E : Env) (rc : RC) (hd : PyDom rc = true) (X Y Z : Nat) (hE : EnvPy E X Y Z) :
+/-- the items printed for the bounds of a range constraint have the property `Q` -/
+def RCBoundQ (Q : String → List Nat → Prop) : RC → Prop
+  | .ver v => BoundQ Q v
+  | .rng r => ∀ m ∈ r.bounds, BoundQ Q m
+
+theorem rcBoundQ_true (rc : RC) : RCBoundQ QTrue rc := by
+  cases rc with
+  | ver v => exact boundQ_true v
+  | rng r => exact fun m _ => boundQ_true m
+
+theorem nestedRC_conj (E : Env) (rc : RC) (hd : PyDom rc = true) (hQ : RCBoundQ Q rc)
+    (X Y Z : Nat) (hE : EnvPy E X Y Z) :
     ∃ syn, ConjParse (nestedRC "python_version" rc).toList syn ∧
       parseText (nestedRC "python_version" rc) = .ok syn ∧
-      evalSyn E syn = some (rc.allows (pyV X Y Z)) ∧ PySyn syn := by
+      evalSyn E syn = some (rc.allows (pyV X Y Z)) ∧ PySynQ Q syn := by
   cases rc with
   | ver v =>
     simp only [PyDom, Bool.and_eq_true, beq_iff_eq] at hd
-    exact nestedVer_exact E v hd.1 hd.2 X Y Z hE
-  | rng r => exact nestedRng_exact E r hd X Y Z hE
+    exact nestedVer_exact E v hd.1 hd.2 hQ X Y Z hE
+  | rng r => exact nestedRng_exact E r hd hQ X Y Z hE
 
 theorem PyDom_not_any {rc : RC} (h : PyDom rc = true) : rc.isAny = false := by
   cases rc with
@@ -499,37 +535,37 @@ theorem length_unionChars (cs : List (List Char)) : 2 * cs.length ≤ (unionChar
     | nil => simp [unionChars]
     | cons b bs => simp [unionChars] at ih ⊢; omega
 
-theorem pySyn_union (ms : List (List Char × Syn)) (hne : ms ≠ []) (h : ∀ p ∈ ms, PySyn p.2) :
-    PySyn (unionSyn (ms.map (·.2))) := by
+theorem pySyn_union (ms : List (List Char × Syn)) (hne : ms ≠ []) (h : ∀ p ∈ ms, PySynQ Q p.2) :
+    PySynQ Q (unionSyn (ms.map (·.2))) := by
   induction ms with
   | nil => exact absurd rfl hne
   | cons p ps ih =>
     cases ps with
-    | nil => simpa [unionSyn, PySyn, PyAtom] using h p (by simp)
+    | nil => simpa [unionSyn, PySynQ, PyAtomQ] using h p (by simp)
     | cons q qs =>
       have := ih (by simp) (fun x hx => h x (by simp [hx]))
-      simp only [List.map_cons, unionSyn, PySyn, PyAtom] at this ⊢
+      simp only [List.map_cons, unionSyn, PySynQ, PyAtomQ] at this ⊢
       exact ⟨h p (by simp), this⟩
 
 /-- **`create_nested_marker` for a union is exact**: `(…) or (…)` parses and its reference value is the
 disjunction of the members' memberships. -/
 theorem nestedUnion_exact (E : Env) (rs : List RC) (hne : rs ≠ []) (hd : ∀ rc ∈ rs, PyDom rc = true)
-    (X Y Z : Nat) (hE : EnvPy E X Y Z) :
+    (hQ : ∀ rc ∈ rs, RCBoundQ Q rc) (X Y Z : Nat) (hE : EnvPy E X Y Z) :
     ∃ syn, parseText (joinWith " or " (rs.map (fun rc => "(" ++ (if rc.isAny then "" else nestedRC "python_version" rc) ++ ")"))) = .ok syn ∧
-      evalSyn E syn = some (rs.any (fun rc => rc.allows (pyV X Y Z))) ∧ PySyn syn := by
+      evalSyn E syn = some (rs.any (fun rc => rc.allows (pyV X Y Z))) ∧ PySynQ Q syn := by
   -- per-member syntax trees
   have hmem : ∀ rc ∈ rs, ∃ syn, ConjParse (if rc.isAny then "" else nestedRC "python_version" rc).toList syn ∧
-      evalSyn E syn = some (rc.allows (pyV X Y Z)) ∧ PySyn syn := by
+      evalSyn E syn = some (rc.allows (pyV X Y Z)) ∧ PySynQ Q syn := by
     intro rc hrc
-    obtain ⟨syn, hc, _, he⟩ := nestedRC_conj E rc (hd rc hrc) X Y Z hE
+    obtain ⟨syn, hc, _, he⟩ := nestedRC_conj E rc (hd rc hrc) (hQ rc hrc) X Y Z hE
     exact ⟨syn, by simpa [PyDom_not_any (hd rc hrc)] using hc, he⟩
   -- choose them along the list
   let t : RC → String := fun rc => if rc.isAny then "" else nestedRC "python_version" rc
   have hlist : ∃ (ms : List (List Char × Syn)) (bs : List (Syn × Bool)),
-      ms.map (·.1) = rs.map (fun rc => (t rc).toList) ∧ (∀ p ∈ ms, ConjParse p.1 p.2 ∧ PySyn p.2) ∧
+      ms.map (·.1) = rs.map (fun rc => (t rc).toList) ∧ (∀ p ∈ ms, ConjParse p.1 p.2 ∧ PySynQ Q p.2) ∧
       bs.map (·.1) = ms.map (·.2) ∧ bs.map (·.2) = rs.map (fun rc => rc.allows (pyV X Y Z)) ∧
       ∀ p ∈ bs, evalSyn E p.1 = some p.2 := by
-    clear hne hd
+    clear hne hd hQ
     induction rs with
     | nil => exact ⟨[], [], rfl, by simp, rfl, rfl, by simp⟩
     | cons a as ih =>
